@@ -66,6 +66,8 @@ def check_reports(ctx, kept, codes):
     """second pass: the report / resources clauses, clause by clause, on every schedule the implementation returned"""
     skip = sc.BITS['illformed'] | sc.BITS['foreign_rows']
     pairs = [(c, o) for (c, o), code in zip(kept, codes) if o.get('outcome') == 0 and o.get('obs') and not code & skip]
+    if ctx.tier == 'quick':
+        pairs = pairs[:160]          # the corpus and the first generated cases; the thorough tier takes all
     t0 = time.time()
     rc = ctx.coq_codes('c03rep', REP_HEADER, 'repcase', [emit_repcase(c, o) for c, o in pairs], 'check_report', shard=25)
     ctx.coverage['report_pass_wall_s'] = round(time.time() - t0, 1)
@@ -87,7 +89,7 @@ def check_reports(ctx, kept, codes):
     ctx.coverage['report_pass_max_resources_named'] = max(named) if named else 0
 
 
-CAPTIE_QUICK_LIMIT = 400     # cases of the capacity-tie pass in the quick tier (all of them at present)
+CAPTIE_QUICK_LIMIT = 150     # cases of the capacity-tie pass in the quick tier (the thorough tier takes all)
 
 
 def run(ctx):
